@@ -12,11 +12,11 @@ Open Scope list_scope.
 (* the shape of every prefix test in the source: which side is filepath.Clean'ed
    and whether the test guards the reject branch *)
 Theorem c18_prefix_test_shapes :
-  check_sanitize_path = (true, false, false) /\
-  check_sanitize_archive_path = (false, true, false) /\
-  check_dirfs_link = (false, false, true) /\
-  check_cache_file_from_etag = (false, false, true) /\
-  check_cache_path_from_url = (false, false, true) /\
+  check_sanitize_path = ("rel"%string, (false, true, true)) /\
+  check_sanitize_archive_path = ("rel"%string, (false, true, true)) /\
+  check_dirfs_link = ("rel"%string, (false, true, true)) /\
+  check_cache_file_from_etag = ("string-prefix"%string, (false, false, true)) /\
+  check_cache_path_from_url = ("rel"%string, (true, true, true)) /\
   key_last_is_base = true.
 Proof. repeat split; reflexivity. Qed.
 Print Assumptions c18_prefix_test_shapes.
@@ -53,21 +53,37 @@ Proof.
   - apply underb_iff. vm_compute. reflexivity.
 Qed.
 
-(* c18_sanitize_sound — "a path accepted by sanitizePath / sanitizeArchivePath /
-   dirFS.Link's test is under its base" — is FALSE: the tests compare strings.
-   Witness base "/r", name "../r2/x" (for Link: base "/T/root", "../root2/secret"). *)
-Theorem c18_sanitize_sound_refuted :
-  (exists b p v, sanitize_path b p = Some v /\ ~ under b v) /\
-  (exists d t v, sanitize_archive_path d t = Some v /\ ~ under d v) /\
-  (exists b old t, link_target b old = Some t /\ ~ under b t).
-Proof. exact (conj sanitize_path_unsound (conj sanitize_archive_path_unsound link_target_unsound)). Qed.
-Print Assumptions c18_sanitize_sound_refuted.
+(* c18_sanitize_sound — a path accepted by sanitizePath / sanitizeArchivePath /
+   dirFS.Link's test is under its base: every base, every name (since fix
+   566455e the three tests are component-wise: filepath.Rel, not "..", no
+   "../" prefix). For an absolute base the test of sanitizePath is exact. *)
+Theorem c18_sanitize_sound :
+  (forall b p v, sanitize_path b p = Some v -> under b v) /\
+  (forall d t v, sanitize_archive_path d t = Some v -> under d v) /\
+  (forall b old t, link_target b old = Some t -> under b t) /\
+  (forall b p, is_abs b = true ->
+     (sanitize_path b p = Some (join [b; p]) <-> under b (join [b; p]))).
+Proof.
+  exact (conj sanitize_path_sound (conj sanitize_archive_path_sound
+        (conj link_target_sound sanitize_path_exact))).
+Qed.
+Print Assumptions c18_sanitize_sound.
 
-(* c18_sanitize_sound_partial (the tests ARE sound when the base ends in a
-   separator, or when no component shares a string prefix with the base's last
-   component) is stated in notes/C18.md and NOT proved; what is proved about
-   accepted names is the lexical characterisation c18_clean_join_under above
-   and, below, confinement of names that do not climb. *)
+(* the replays of the fixed findings C18-F3 / C18-F5 are refused, and a name
+   that re-enters the base is accepted: the hypotheses are satisfiable *)
+Example c18_sanitize_sound_ex :
+  sanitize_path (la "/r") (la "../r2/x") = None /\
+  sanitize_archive_path (la "/r") (la "../r2/x") = None /\
+  link_target (la "/T/root") (la "../root2/secret") = None /\
+  sanitize_path (la "/r") (la "a/../b") = Some (la "/r/b").
+Proof. repeat split; vm_compute; reflexivity. Qed.
+
+(* what the tests were before the fix — and what cacheFileFromEtag's test still
+   is — does not imply containment: a prefix test on STRINGS accepts a sibling *)
+Theorem c18_string_prefix_test_unsound :
+  exists b v, string_prefix_test b v = true /\ is_abs b = true /\ v = clean v /\ ~ under b v.
+Proof. exact string_prefix_unsound. Qed.
+Print Assumptions c18_string_prefix_test_unsound.
 
 (* Every ETag header value (any bytes, any number of values) that
    etagFromResponse accepts becomes a non-empty name over the generated
@@ -100,16 +116,33 @@ Theorem c18_etag_alphabet_safe : forallb safe_char (la etag_alphabet ++ [pad_cha
 Proof. exact etag_alphabet_safe. Qed.
 Print Assumptions c18_etag_alphabet_safe.
 
-(* For every cache root and every URL whose path is absolute (what the callers
-   produce), provided the printed repository URL contains a '/' (it ends with
-   the absolute path Dir(Dir(u.Path))), the cache path is at or below the root.
-   It may BE the root: finding C18-F4, refuted form below. *)
+(* The result of cachePathFromURL is STRICTLY below the cache root — every
+   root, every URL string, every URL path (since fix 75bbb04 the test is
+   component-wise and refuses the root itself, finding C18-F4). *)
 Theorem c18_cache_path : forall root ustr path p,
-  is_abs root = true -> is_abs path = true -> In sl ustr ->
   cache_path_from_url root ustr path = Some p ->
-  under root p.
-Proof. exact cache_path_under_root. Qed.
+  under root p /\ exists c r, cc p = cc root ++ c :: r.
+Proof.
+  intros root ustr path p H.
+  destruct (cache_path_strictly_under root ustr path p H) as [EA [c [r E]]].
+  split; [split; [exact EA | exists (c :: r); exact E] | exists c, r; exact E].
+Qed.
 Print Assumptions c18_cache_path.
+
+(* for the URLs the callers produce (absolute URL path, printed URL containing
+   '/') the joined path is at or below the root whatever the test says, so the
+   test refuses nothing but the root itself *)
+Theorem c18_cache_path_accepts : forall root ustr path,
+  is_abs root = true -> is_abs path = true -> In sl ustr ->
+  under root (cache_joined root ustr path) /\
+  (cc (cache_joined root ustr path) <> cc root ->
+   cache_path_from_url root ustr path = Some (cache_joined root ustr path)).
+Proof.
+  intros root ustr path HR HP HS. split.
+  - apply cache_joined_under; assumption.
+  - apply cache_path_accepts; assumption.
+Qed.
+Print Assumptions c18_cache_path_accepts.
 
 (* filepath.Base of a cleaned absolute path is "/" or a proper component, never ".." *)
 Theorem c18_base_of_clean : forall x, is_abs x = true ->
@@ -123,13 +156,11 @@ Example c18_cache_path_ex :
   In sl (la "https://h/repo").
 Proof. split; [vm_compute; reflexivity | vm_compute; auto 10]. Qed.
 
-Theorem c18_cache_path_is_root_refuted :
-  exists root ustr path e p,
-    cache_path_from_url root ustr path = Some root /\
-    etag_from_response (Some [la "abc"]) = Some e /\
-    cache_file_from_etag (la "/") root e = Some p /\ ~ under root p.
-Proof. exact cache_path_can_be_root. Qed.
-Print Assumptions c18_cache_path_is_root_refuted.
+(* the replay of the fixed finding C18-F4: a URL whose path cleans to the root
+   is refused *)
+Example c18_cache_path_root_refused :
+  cache_path_from_url (la "/t/cache") (la "https://h/..") (la "/..") = None.
+Proof. vm_compute. reflexivity. Qed.
 
 (* InitKeyring stores every key under etc/apk (never above it), and under
    etc/apk/keys/<one component> whenever the base name of the key location is
